@@ -7,6 +7,7 @@ import SonicModel.Lemmas.BlockProof
 import SonicModel.Lemmas.ScanGrammar
 import SonicModel.Lemmas.StrSkipGrammar
 import SonicModel.Lemmas.GetURefine
+import SonicModel.Lemmas.LookWF
 namespace Sonic.Thm.C10
 open Sonic Gen Impl Spec
 
@@ -213,8 +214,62 @@ theorem unchecked_get_agrees_with_checked (buf : Buf) (path : List Step) (i : Na
     | wrongKind => rw [hl] at hc; simp [GRes.coarse, Look.coarse, hcat] at hc
     | malformed => rw [hl] at hc; simp [GRes.coarse, Look.coarse, hcat] at hc
 
+/-- what the strict grammar (the DOM's) accepts the lazy grammar accepts too, with the same extent -/
+theorem strict_value_is_lazy_value (buf : Buf) (f i e : Nat) (h : Spec.value true f buf i = .ok e) :
+    Spec.value false f buf i = .ok e :=
+  Spec.value_strict_lazy buf f i e h
+
+/-- in a strictly well-formed value a lookup finds a value or the path does not resolve: it never runs into malformed text -/
+theorem lookup_in_wellformed_value (buf : Buf) (path : List Step) (f w E : Nat) (h : Spec.value true f buf w = .ok E) :
+    look buf w path ≠ .malformed :=
+  Spec.look_wellformed buf path f w E h
+
+/-- **on every well-formed document (the grammar the DOM accepts: RFC 8259 with every string decodable) the unchecked `get`
+    succeeds if and only if the path resolves, and then returns exactly the span of the value the specification finds** —
+    for every path, whatever follows the document -/
+theorem unchecked_get_on_wellformed_documents (buf : Buf) (path : List Step) (i f E : Nat)
+    (hwf : Spec.value true f buf (skipWs buf i) = .ok E) (s e : Nat) :
+    GetU.getUnchecked buf i path = .found s e ↔ look buf (skipWs buf i) path = .found s e := by
+  have hu := GetU.getUnchecked_spec buf path i
+  have hnm := Spec.look_wellformed buf path f _ E hwf
+  cases hl : look buf (skipWs buf i) path with
+  | found s' e' =>
+    rw [hl] at hu
+    rw [hu]
+    constructor
+    · intro h; injection h with h1 h2; rw [h1, h2]
+    · intro h; injection h with h1 h2; rw [h1, h2]
+  | missing =>
+    rw [hl] at hu
+    obtain ⟨c, p, hu⟩ := hu
+    rw [hu]; simp
+  | wrongKind =>
+    rw [hl] at hu
+    obtain ⟨c, p, hu⟩ := hu
+    rw [hu]; simp
+  | malformed => exact absurd hl hnm
+
+/-- … and the same for the checked `get` (from `get_found_iff`'s walker-level form), so that the two variants agree on every
+    well-formed document -/
+theorem checked_and_unchecked_get_agree_on_wellformed_documents (buf : Buf) (path : List Step) (i f E : Nat)
+    (hwf : Spec.value true f buf (skipWs buf i) = .ok E) (s e : Nat) :
+    GetU.getUnchecked buf i path = .found s e ↔ getChecked buf.size buf i path = .found s e := by
+  rw [unchecked_get_on_wellformed_documents buf path i f E hwf s e]
+  have h := getChecked_coarse buf path i
+  constructor
+  · intro hl
+    rw [hl] at h
+    cases hg : getChecked buf.size buf i path with
+    | found s' e' => simp_all [GRes.coarse, Look.coarse]
+    | err c p => simp [hg, GRes.coarse, Look.coarse] at h; split at h <;> simp at h
+    | fuel => simp [hg, GRes.coarse, Look.coarse] at h
+  · intro hg
+    rw [hg] at h
+    cases hl : look buf (skipWs buf i) path <;> simp_all [GRes.coarse, Look.coarse]
+
 /-- non-vacuity: the example document, with a string full of brackets and an escaped quote to pass over -/
 def ex2 : Buf := #[123, 34, 115, 34, 58, 34, 125, 92, 34, 93, 34, 44, 34, 97, 34, 58, 91, 49, 44, 123, 34, 98, 34, 58, 34, 120, 34, 125, 93, 125]
 example : lookup ex2 [.key [97], .idx 1, .key [98]] = .found 24 27 := by decide +kernel
+example : Spec.value true (Spec.fuelFor ex2) ex2 0 = .ok 30 := by decide +kernel
 
 end Sonic.Thm.C10
